@@ -216,7 +216,7 @@ def part_heights(tier, seed, workdir, binary, only=None):
         else:
             cases = only
         lines = drive_cases(binary, cases, workdir, "heights", nshards=1 if tier == "quick" else 6)
-        fails = validate(d, "Trace_Heights", lines, workdir, "heights", nshards=2 if tier == "quick" else 8)
+        fails = validate(d, "Trace_Heights", lines, workdir, "heights", nshards=1 if tier == "quick" else 8)
         if only is None:
             for b in bg:
                 k, v = b.get()
@@ -260,7 +260,7 @@ def part_delay(tier, seed, workdir, binary, only=None):
         else:
             cases = only
         lines = drive_cases(binary, cases, workdir, "delay", nshards=1 if tier == "quick" else 6)
-        fails = validate(d, "Trace_Delay", lines, workdir, "delay", nshards=2 if tier == "quick" else 8)
+        fails = validate(d, "Trace_Delay", lines, workdir, "delay", nshards=1 if tier == "quick" else 8)
         if only is None:
             for b in bg:
                 k, v = b.get()
@@ -288,20 +288,23 @@ def part_delay(tier, seed, workdir, binary, only=None):
 def gen_hist(d, tier, seed, workdir):
     n = 8 if tier == "quick" else 120
     depth = 7 if tier == "quick" else 9
-    scheds = []
-    for ci, (td, p) in enumerate(HIST_CONFIGS[tier]):
-        outdir = os.path.join(workdir, "hist_%d_%d" % (td, p))
-        os.makedirs(outdir, exist_ok=True)
-        cfg = os.path.join(d, "Sched_DelayHist_%d_%d.cfg" % (td, p))
-        vk.write_cfg(cfg, "Spec", dict(TD=td, P=p, Depth=depth, OutDir=outdir))
-        vk.tlc_simulate(d, "Sched_DelayHist", cfg, n, depth + 1, seed * 13 + ci, workers=1)
-        for i, f in enumerate(sorted(glob.glob(os.path.join(outdir, "*.json")))[:n]):
-            s = json.load(open(f))
-            s["id"] = "DH-%d-%d-%d-%d" % (td, p, seed, i)
-            s["part"] = "delayhist"
-            scheds.append(s)
-    if len(scheds) < len(HIST_CONFIGS[tier]):
-        raise vk.Infra("history schedule generation produced only %d schedules" % len(scheds))
+    cfgs = HIST_CONFIGS[tier]
+    outdir = os.path.join(workdir, "hist_sched")
+    os.makedirs(outdir, exist_ok=True)
+    cfg = os.path.join(d, "Sched_DelayHist.cfg")
+    vk.write_cfg(cfg, "Spec", dict(CONFIGS={td * 1000 + p for td, p in cfgs}, Depth=depth, OutDir=outdir))
+    vk.tlc_simulate(d, "Sched_DelayHist", cfg, n * len(cfgs), depth + 1, seed * 13 + 1, workers=1)
+    scheds, per = [], collections.Counter()
+    for f in sorted(glob.glob(os.path.join(outdir, "*.json"))):
+        s = json.load(open(f))
+        k = (s["td"], s["p"])
+        if per[k] >= n:
+            continue
+        s["id"] = "DH-%d-%d-%d-%d" % (s["td"], s["p"], seed, per[k])
+        per[k] += 1
+        scheds.append(s)
+    if len(per) < len(cfgs):
+        raise vk.Infra("history schedule generation covered only the configurations %s" % sorted(per))
     return scheds
 
 
@@ -310,29 +313,17 @@ def part_delayhist(tier, seed, workdir, binary, only=None):
     res = {"mc": {}}
     try:
         if only is None:
-            def mc_all():
-                out = {}
-                for td, p in HIST_CONFIGS[tier]:
-                    need = []
-                    if td > 0:
-                        need += ["accepted-at-exact-time", "rejected-one-ns-early"]
-                    if td > 0 and p > 0:
-                        need += ["accepted-at-exact-height"] + (["rejected-one-block-early"] if (td + p - 1) // p > 1 else [])
-                    out["C19:DelayHist(%d,%d)" % (td, p)] = mc(d, "MC_DelayHist", "C19:DelayHist_%d_%d" % (td, p), dict(TD=td, P=p),
-                                                              properties=["OnlyAfterBothDelays"], constraint="Bound", need=need, workers=2, timeout=3000)
-                return out
-            bg = Bg(mc_all)
+            cfgs = HIST_CONFIGS[tier]
+            need = ["accepted-at-exact-time", "rejected-one-ns-early", "accepted-at-exact-height", "rejected-one-block-early", "no-block-delay"]
+            if any(td == 0 for td, _ in cfgs):
+                need.append("no-delay-at-all")
+            bg = Bg(lambda: {"C19:DelayHist": mc(d, "MC_DelayHist", "C19:DelayHist", dict(CONFIGS={td * 1000 + p for td, p in cfgs}),
+                                                 properties=["OnlyAfterBothDelays"], constraint="Bound", need=need, workers=2, timeout=3000)})
             scheds = gen_hist(d, tier, seed, workdir)
         else:
             scheds = only
         lines = drive_cases(binary, scheds, workdir, "delayhist", nshards=1 if tier == "quick" else 6, test="TestDelayHist", in_env="VERIF_SCHED")
-        groups = collections.defaultdict(list)
-        for ln in lines:
-            groups[(ln["td"], ln["p"])].append(ln)
-        fails = []
-        for (td, p), ls in sorted(groups.items()):
-            fails += validate(d, "Trace_DelayHist", ls, workdir, "delayhist_%d_%d" % (td, p), constants=dict(TD=td, P=p),
-                              nshards=1 if tier == "quick" else 3, keep_together="tr")
+        fails = validate(d, "Trace_DelayHist", lines, workdir, "delayhist", nshards=1 if tier == "quick" else 6, keep_together="tr")
         if only is None:
             res["mc"].update(bg.get())
     finally:
@@ -360,15 +351,13 @@ def part_commit(tier, seed, workdir, binary, only=None):
     try:
         if only is None:
             deep = tier != "quick"
-            need = {"v1": ["same-fields", "one-field-differs", "uncommitted-field-differs", "negative-control-collides"],
-                    "payload": ["same-fields", "one-field-differs", "boundary-moved", "negative-control-collides"],
-                    "v2": ["same-fields", "one-field-differs", "uncommitted-field-differs", "order-differs", "negative-control-collides"],
-                    "ack": ["same-fields", "one-field-differs", "boundary-moved", "order-differs", "negative-control-collides"]}
-
-            def one(kind):
-                return kind, mc(d, "MC_Commitments", "C07:Commitments_" + kind, dict(KIND=kind, DEEP=deep, HLEN=2, WLEN=2),
-                                invariants=["Injective", "FixedLength"], need=need[kind], workers=2 if tier == "quick" else 4, timeout=3000)
-            bg = Bg(lambda: vk.pmap(one, ["v1", "payload", "v2", "ack"], 2 if tier == "quick" else 4))
+            need = ["%s:%s" % (w, k) for k, ws in {
+                "v1": ["same-fields", "one-field-differs", "uncommitted-field-differs", "negative-control-collides"],
+                "payload": ["same-fields", "one-field-differs", "boundary-moved", "negative-control-collides"],
+                "v2": ["same-fields", "one-field-differs", "uncommitted-field-differs", "order-differs", "negative-control-collides"],
+                "ack": ["same-fields", "one-field-differs", "boundary-moved", "order-differs", "negative-control-collides"]}.items() for w in ws]
+            bg = Bg(lambda: mc(d, "MC_Commitments", "C07:Commitments", dict(KINDS={"v1", "payload", "v2", "ack"}, DEEP=deep, HLEN=2, WLEN=2),
+                               invariants=["Injective", "FixedLength"], need=need, workers=3 if tier == "quick" else 4, timeout=6000))
             cases, counts = gen_cases(d, "Gen_Commitments", seed, tier, os.path.join(workdir, "commit_cases.ndjson"))
             res["generated"] = counts
         else:
@@ -376,8 +365,7 @@ def part_commit(tier, seed, workdir, binary, only=None):
         lines = drive_cases(binary, cases, workdir, "commit", nshards=1 if tier == "quick" else 4)
         fails = validate(d, "Trace_Commit", lines, workdir, "commit", nshards=1 if tier == "quick" else 4)
         if only is None:
-            for kind, r in bg.get():
-                res["mc"]["C07:Commitments(%s)" % kind] = r
+            res["mc"]["C07:Commitments"] = bg.get()
     finally:
         shutil.rmtree(d, ignore_errors=True)
     cov = collections.Counter()
@@ -407,7 +395,7 @@ def part_ident(tier, seed, workdir, binary, only=None):
         else:
             cases = only
         lines = drive_cases(binary, cases, workdir, "ident", nshards=1 if tier == "quick" else 4)
-        fails = validate(d, "Trace_Ident", lines, workdir, "ident", nshards=2 if tier == "quick" else 8)
+        fails = validate(d, "Trace_Ident", lines, workdir, "ident", nshards=1 if tier == "quick" else 8)
         if only is None:
             res["mc"]["C15:Identifiers"] = bg.get()
     finally:
@@ -525,24 +513,33 @@ def run_family(tier, seed, binary=None):
     os.makedirs(workdir)
     if binary is None:
         binary = vk.build_harness("funcsA")
-    results, errors = {}, []
+    results, errors = {}, {}
 
     def run(name):
         try:
             t1 = time.time()
-            results[name] = PARTS[name][0](tier, seed, workdir, binary)
+            r = PARTS[name][0](tier, seed, workdir, binary)
+            sanity = [f for f in r["fails"] if f[2] == "X"]
+            if sanity:
+                raise vk.Infra("harness sanity monitors failed (infrastructure): %s" % sanity[:5])
+            results[name] = r
             vk.log("part %s done in %.1fs" % (name, time.time() - t1))
         except Exception as e:  # noqa
-            errors.append(e)
+            errors[name] = e
+            vk.log("part %s FAILED (infrastructure): %s" % (name, str(e)[:300]))
     threads = [threading.Thread(target=run, args=(n,)) for n in PARTS]
     for th in threads:
         th.start()
     for th in threads:
         th.join()
-    if errors:
-        raise errors[0]
+    # A part that could not run (build/TLC/driver problem, e.g. because an edit of the tree breaks chain set-up) is an
+    # infrastructure failure of ITS property only: its coverage is missing, so bin/check ends in exit 2 for that property
+    # (vacuity floors), while the other properties are still judged.  The shared BigNat lemma is needed by all.
+    if "bignat" in errors or len(errors) == len(PARTS):
+        raise list(errors.values())[0]
     out = {"tier": tier, "seed": seed, "mc": {}, "traces": 0, "steps": 0, "fails": [], "coverage": {}, "sigs": collections.Counter(),
-           "failing_schedules": {}, "sample": {}, "samples": {}, "generated": {}, "part_stats": {}, "probes": {}}
+           "failing_schedules": {}, "sample": {}, "samples": {}, "generated": {}, "part_stats": {}, "probes": {},
+           "part_errors": {n: str(e)[-1500:] for n, e in errors.items()}}
     for name, r in results.items():
         out["mc"].update(r["mc"])
         lines = r["lines"]
@@ -574,9 +571,6 @@ def run_family(tier, seed, binary=None):
                     out["samples"][prop].append(slim(ln))
         if name == "delay":
             out["probes"].update(delay_probes(lines, r["fails"]))
-    sanity = [f for f in out["fails"] if f[2] == "X"]
-    if sanity:
-        raise vk.Infra("harness sanity monitors failed (infrastructure): %s" % sanity[:5])
     out["sigs"] = dict(out["sigs"])
     out["sample"] = {p: s[:1] for p, s in out["samples"].items()}
     out["wall"] = time.time() - t0
@@ -714,5 +708,6 @@ def evidence(pid, res):
         "generated_tables": {n: res.get("generated", {}).get(n) for n in parts},
         "coverage_by_action": {k: v for k, v in sorted(res.get("coverage", {}).items()) if k.split(":")[0] in parts},
         "exhaustive": False,
+        "parts_not_run_infrastructure": {n: e for n, e in res.get("part_errors", {}).items() if n in parts},
         "obligations_checked_on_spec": sorted({c for v in mcs.values() for c in v.get("checked", [])}),
     }
